@@ -85,3 +85,19 @@ Theorem C03_bloom_false_positives_harmless :
 Proof. exact bloom_false_positives_harmless. Qed.
 Print Assumptions C03_bloom_false_positives_harmless.
 Print Assumptions C03_bloom_hash_same_on_both_sides.
+
+(* F-C03d (known finding): without no_embedded the disk loader's theorem is false - a key that
+   contains the complete image of an index record makes the binary search over byte offsets land
+   inside that key; the table opens, a written key is reported absent and the scan delivers a key
+   that was never written. *)
+Theorem C03_disk_index_embedded_refuted :
+  exists (ci cd : codec) (sl : N) (kvs : tpairs),
+    (forall x, decomp ci (comp ci x) = Ok x) /\ (forall x, decomp cd (comp cd x) = Ok x)
+    /\ ctype ci <= 3 /\ ctype cd <= 3
+    /\ 4 <= sl
+    /\ psorted kvs /\ Forall (pair_ok ci cd) kvs /\ Forall val_ok kvs /\ file_ok cd kvs
+    /\ ~ no_embedded ci cd kvs
+    /\ (exists r, open_table (LDisk sl) (write_table ci cd kvs) ci cd = Ok r)
+    /\ (forall r, open_table (LDisk sl) (write_table ci cd kvs) ci cd = Ok r -> ~ behaves_as_sorted_map r kvs).
+Proof. exact disk_index_embedded_refuted. Qed.
+Print Assumptions C03_disk_index_embedded_refuted.
